@@ -18,7 +18,7 @@ RELEVANT = {
     "C07": STRUCT | {"baddrop", "drops", "frees", "drain", "poison", "count", "panicked", "stray", "value", "leak", "exit", "overrun"},
     "C08": STRUCT | {"verdict", "ncl", "seen", "value", "ident", "count", "stray", "drops", "frees", "panicked", "drain"},
     "C09": STRUCT | {"verdict", "out", "drops", "frees", "count", "ncl", "seen", "drain", "stray", "baddrop", "panicked"},
-    "C10": STRUCT | {"count", "value", "ident", "thin", "addr", "heap", "panicked", "drops", "frees", "drain", "baddrop", "poison", "stray", "contents", "overrun"},
+    "C10": STRUCT | {"touch", "count", "value", "ident", "thin", "addr", "heap", "panicked", "drops", "frees", "drain", "baddrop", "poison", "stray", "contents", "overrun"},
     "C11": STRUCT | {"heap", "addr", "count", "value", "width", "bits", "verdict"},
     "C12": STRUCT | {"union", "count", "layout", "drops", "frees", "baddrop", "drain", "value", "ident", "poison", "width", "verdict"},
     "C15": STRUCT | {"baddrop", "drops", "frees", "drain", "poison", "count", "value", "ident", "panicked", "stray", "contents", "verdict", "overrun"},
@@ -26,7 +26,7 @@ RELEVANT = {
     "C17": {"serde", "count", "stray", "drain", "frees", "drops"},
 }
 OWNER_HINT = {
-    "layout": "C05", "heap": "C11", "addr": "C11", "union": "C12", "verdict": "C03", "ncl": "C08",
+    "touch": "C10", "layout": "C05", "heap": "C11", "addr": "C11", "union": "C12", "verdict": "C03", "ncl": "C08",
     "seen": "C08", "out": "C09", "count": "C04", "value": "C01", "ident": "C01", "poison": "C01",
     "baddrop": "C01", "drops": "C01", "frees": "C01", "drain": "C01", "stray": "C01", "panicked": "C07",
 }
